@@ -155,3 +155,57 @@ package band
 //@   loop 5: step skip: !chMask[rangeindex] ==> len(out) == prev(len(out))
 //@   loop 5: step keep: forall j int :: 0 <= j && j < prev(len(out)) ==> out[j] == prev(out[j])
 //@   loop 5: decreases len(chMask) - rangeindex
+
+// intSliceDiff(x, y): every element of the result occurs in x, or lies in the range that bounds y's
+// elements (ghost lo, hi) -- what the planner needs to index the channel table safely
+//@ func intSliceDiff
+//@   props C14
+//@   ghost lo int
+//@   ghost hi int
+//@   requires y-range: forall j int :: 0 <= j && j < len(y) ==> lo <= y[j] && y[j] < hi
+//@   modifies nothing
+//@   ensures origin: forall k int :: 0 <= k && k < len(result) ==> (exists j int :: 0 <= j && j < len(x) && x[j] == result[k]) || (lo <= result[k] && result[k] < hi)
+//@   ensures fresh: result == nil || fresh(result)
+//@   loop 0: invariant idx: rangeindex >= 0 - 1 && rangeindex < len(x)
+//@   loop 0: invariant out-fresh: out == nil || fresh(out)
+//@   loop 0: invariant origin: forall k int :: 0 <= k && k < len(out) ==> (exists j int :: 0 <= j && j < len(x) && x[j] == out[k]) || (lo <= out[k] && out[k] < hi)
+//@   loop 0: decreases len(x) - rangeindex
+//@   loop 1: invariant idx: rangeindex >= 0 - 1 && rangeindex < len(y)
+//@   loop 1: decreases len(y) - rangeindex
+//@   loop 2: invariant idx: rangeindex >= 0 - 1 && rangeindex < len(y)
+//@   loop 2: invariant out-fresh: out == nil || fresh(out)
+//@   loop 2: invariant y-range: forall j int :: 0 <= j && j < len(y) ==> lo <= y[j] && y[j] < hi
+//@   loop 2: invariant origin: forall k int :: 0 <= k && k < len(out) ==> (exists j int :: 0 <= j && j < len(x) && x[j] == out[k]) || (lo <= out[k] && out[k] < hi)
+//@   loop 2: decreases len(y) - rangeindex
+//@   loop 3: invariant idx: rangeindex >= 0 - 1 && rangeindex < len(x)
+//@   loop 3: decreases len(x) - rangeindex
+
+//@ func (*band).GetEnabledUplinkChannelIndices
+//@   props C14 C15
+//@   modifies nothing
+//@   ensures valid: forall k int :: 0 <= k && k < len(result) ==> 0 <= result[k] && result[k] < len(b.uplinkChannels)
+//@   ensures fresh: result == nil || fresh(result)
+//@   loop 0: invariant idx: rangeindex >= 0 - 1 && rangeindex < len(b.uplinkChannels)
+//@   loop 0: invariant out-fresh: out == nil || fresh(out)
+//@   loop 0: invariant valid: forall k int :: 0 <= k && k < len(out) ==> 0 <= out[k] && out[k] <= rangeindex
+//@   loop 0: modifies c
+//@   loop 0: decreases len(b.uplinkChannels) - rangeindex
+
+// the generic planner: total for every device channel list (safety / termination / frame only; the
+// planner theorem itself is not decided, see MANIFEST)
+//@ func (*band).GetLinkADRReqPayloadsForEnabledUplinkChannelIndices
+//@   props C14
+//@   call intSliceDiff: lo = 0, hi = len(b.uplinkChannels)
+//@   modifies nothing
+//@   loop 0: invariant idx: rangeindex >= 0 - 1 && rangeindex < len(diff)
+//@   loop 0: invariant fd-fresh: filteredDiff == nil || fresh(filteredDiff)
+//@   loop 0: invariant origin: forall k int :: 0 <= k && k < len(diff) ==> (exists j int :: 0 <= j && j < len(deviceEnabledChannels) && deviceEnabledChannels[j] == diff[k]) || (0 <= diff[k] && diff[k] < len(b.uplinkChannels))
+//@   loop 0: decreases len(diff) - rangeindex
+//@   loop 1: invariant idx: rangeindex >= 0 - 1 && rangeindex < len(diff)
+//@   loop 1: invariant pl-fresh: payloads == nil || fresh(payloads)
+//@   loop 1: invariant enabled-valid: forall k int :: 0 <= k && k < len(enabledChannels) ==> 0 <= enabledChannels[k] && enabledChannels[k] < len(b.uplinkChannels)
+//@   loop 1: decreases len(diff) - rangeindex
+//@   loop 2: invariant idx: rangeindex >= 0 - 1 && rangeindex < len(enabledChannels)
+//@   loop 2: invariant enabled-valid: forall k int :: 0 <= k && k < len(enabledChannels) ==> 0 <= enabledChannels[k] && enabledChannels[k] < len(b.uplinkChannels)
+//@   loop 2: modifies pl
+//@   loop 2: decreases len(enabledChannels) - rangeindex
